@@ -1,4 +1,71 @@
-(* C11 - placeholder statement file, replaced below *)
-From VJ Require Import Model.Str.
-Theorem C11_placeholder : True. Proof. exact I. Qed.
-Print Assumptions C11_placeholder.
+(* C11 - embedded expressions are evaluated once, in source order, slot content lazily.
+   Statements only.
+
+   The property is about evaluation; it is stated here on the syntax of the output, where
+   JavaScript fixes the evaluation order (object-literal entries and call arguments left to
+   right, a function body only when called).
+   FULL STATEMENT (decided on every generated probe by [order_fail] and the "C11:" tags of
+   [check_site] on the REAL output): every non-trivial source expression occurs once among the
+   evaluated-at-creation positions (attributes, element children) or once under a slot function
+   (component children), in source order.
+   PROVED (partial): without mergeProps the props object of a list of plain attributes and
+   spreads holds their contributions in source order; children are lowered one to one in
+   order (each expression once); slot content sits under an arrow function and nowhere else;
+   a call child is evaluated once (C03_call_child_once).  Not proved: the position of a
+   repeated class/style/listener under mergeProps (dedupe_props) - oracle only.
+   Known finding: v-slots on an element host is dropped with its expression. *)
+From VJ Require Import Model.Str Model.Json Model.Ast Model.State Model.Util Model.Directive
+  Model.Lower Spec.JsxText Spec.OutViews Spec.Site Spec.SiteCheck Lemmas.SiteProofs
+  Lemmas.ChildProofs Lemmas.AttrsProofs.
+
+(* attribute and spread expressions in source order (the contributions list of Spec/Site.v is
+   built by one left-to-right pass over the written attributes) *)
+Theorem C11_source_order_partial : forall E ic tag attrs s,
+  o_merge_props (e_opts E) = false ->
+  Forall (simple_attr E) attrs -> attrs <> [] ->
+  exists ps,
+    view_contribs (Obj ps) = fst (fst (spec_attrs E ic tag attrs))
+    /\ r_attrs (transform_attrs E attrs ic s)
+       = match ps with [] => Null | [Spread e] => e | _ => Obj ps end
+    /\ r_dirs (transform_attrs E attrs ic s) = []
+    /\ r_slots (transform_attrs E attrs ic s) = None.
+Proof. exact attrs_refine_no_merge. Qed.
+Print Assumptions C11_source_order_partial.
+
+(* children: one output element per live child, in order, each expression exactly once *)
+Theorem C11_children_once_in_order : forall E rec chk fail cs s,
+  rec_ok rec chk cs -> forallb child_ok cs = true ->
+  check_items_with chk fail cs (view_items (fst (lower_children_with E rec cs s))) = [].
+Proof. exact children_items. Qed.
+Print Assumptions C11_children_once_in_order.
+
+(* slot content is evaluated only when the slot function runs: at vnode creation nothing below
+   the `default` arrow is evaluated, whatever the children are *)
+Theorem C11_slot_content_lazy : forall E elems flag,
+  eager_subs (wrap_children E elems flag None)
+  = wrap_children E elems flag None
+    :: KV (IdName (s_ "default")) (mk_arrow [] (Arr elems))
+    :: IdName (s_ "default")
+    :: mk_arrow [] (Arr elems)
+    :: flat_map eager_subs (hint_prop E flag).
+Proof.
+  intros E elems flag. unfold wrap_children, merge_slots, hint_prop.
+  destruct (o_optimize (e_opts E)); reflexivity.
+Qed.
+Print Assumptions C11_slot_content_lazy.
+
+(* attributes are evaluated before children: the vnode call is (type, props, children, ...) *)
+Theorem C11_props_before_children : forall E name attrs sc ta children cl s,
+  exists callee tag props ch rest inner,
+    (fst (lower_el E (JsxE name attrs sc ta children cl) s) = inner
+     \/ exists wd ds, fst (lower_el E (JsxE name attrs sc ta children cl) s) = mk_call wd [inner; ds])
+    /\ inner = mk_call callee ([tag; props; ch] ++ rest).
+Proof.
+  intros. cbn [lower_el].
+  repeat match goal with |- context [match ?X with pair _ _ => _ end] => destruct X end.
+  match goal with |- context [match ?d with [] => _ | _ :: _ => _ end] => destruct d end.
+  - do 6 eexists. split; [left; reflexivity|reflexivity].
+  - repeat match goal with |- context [match ?X with pair _ _ => _ end] => destruct X end.
+    do 6 eexists. split; [right; do 2 eexists; reflexivity|reflexivity].
+Qed.
+Print Assumptions C11_props_before_children.
